@@ -33,6 +33,7 @@ def gen_split(r):
     alias = {m: (r.choice(ALIASES) + str(i) if r.random() < 0.35 else None) for i, m in enumerate(mods)}
     lib_src, merged_top, merged_funcs = {}, [], []
     same_names = r.random() < 0.7          # the same variable / function names in every module
+    use_dev = r.random() < 0.5
     info = {}
     for i, m in enumerate(mods):
         v = "v" if same_names else f"v{i}"
@@ -43,7 +44,12 @@ def gen_split(r):
         has_get = r.random() < 0.6
         has_limit = r.random() < 0.6
         P = (alias[m] or m)
+        # a module-level DEVICE variable used inside the library's functions; the main script may bind the same name to another device
+        dev = ("dev" if same_names else f"dev{i}") if use_dev else None
+        target = dev if dev else f"d{i}"
         L = [f"{v} = {init}"]
+        if dev:
+            L.append(f"{dev} = d{i}")
         if has_limit:
             L.append(f"limit = {limit_c}")
         early = r.random() < 0.5                # a return that is not the last statement of the library function
@@ -53,7 +59,7 @@ def gen_split(r):
         L += [f"    {v} = {v} + a * {i + 2}"]
         if has_limit:
             L += [f"    if {v} > limit:", f"        {v} = {v} - limit"]
-        L += [f"    d{i}.Setting = {v}", ""]
+        L += [f"    {target}.Setting = {v}", ""]
         if has_get:
             L += [f"def {getf}(b):", f"    return {v} * 2 + b", ""]
         L += ["def unused(a):", f"    d5.On = a + {i}", "", "if __name__ == \"__main__\":", f"    d4.On = {90 + i}", f"    {bump}(5)"]
@@ -62,6 +68,8 @@ def gen_split(r):
         lib_src[m] = "\n".join(L) + "\n"
         # the same code with every library-level name prefixed (module name as the transpiler renames it: alias if given)
         M = [f"{P}_{v} = {init}"]
+        if dev:
+            M.append(f"{P}_{dev} = d{i}")
         if has_limit:
             M.append(f"{P}_limit = {limit_c}")
         merged_top += M
@@ -71,7 +79,7 @@ def gen_split(r):
         F += [f"    {P}_{v} = {P}_{v} + a * {i + 2}"]
         if has_limit:
             F += [f"    if {P}_{v} > {P}_limit:", f"        {P}_{v} = {P}_{v} - {P}_limit"]
-        F += [f"    d{i}.Setting = {P}_{v}", ""]
+        F += [f"    {(P + '_' + dev) if dev else f'd{i}'}.Setting = {P}_{v}", ""]
         if has_get:
             F += [f"def {P}_{getf}(b):", f"    return {P}_{v} * 2 + b", ""]
         merged_funcs += F
@@ -79,8 +87,10 @@ def gen_split(r):
     main, mmain = [], []
     for m in mods:
         main.append(f"from library import {m}" + (f" as {alias[m]}" if alias[m] else ""))
-    main += ["v = db.Mode", "x = 0", "while x < 3:", "    x = x + 1"]
-    mmain += ["v = db.Mode", "x = 0", "while x < 3:", "    x = x + 1"]
+    own_dev = use_dev and r.random() < 0.7     # the main script's own device variable of the same name, bound before the calls
+    pre = (["dev = d3", "dev.On = 1"] if own_dev else [])
+    main += pre + ["v = db.Mode", "x = 0", "while x < 3:", "    x = x + 1"]
+    mmain += pre + ["v = db.Mode", "x = 0", "while x < 3:", "    x = x + 1"]
     for m in mods:
         I = info[m]
         arg = r.choice(["x", "v", "x + v", "2"])
@@ -92,8 +102,9 @@ def gen_split(r):
         if r.random() < 0.5:
             main.append(f"    {I['P']}.{I['bump']}(x * 2)")
             mmain.append(f"    {I['P']}_{I['bump']}(x * 2)")
-    main += ["    yield_()", "db.Power = v", "while True:", "    yield_()"]
-    mmain += ["    yield_()", "db.Power = v", "while True:", "    yield_()"]
+    tail = (["    dev.Mode = x"] if own_dev else [])
+    main += tail + ["    yield_()", "db.Power = v", "while True:", "    yield_()"]
+    mmain += tail + ["    yield_()", "db.Power = v", "while True:", "    yield_()"]
     src = {"": "\n".join(main) + "\n"}
     for m in mods:
         src[m] = lib_src[m]
